@@ -572,6 +572,9 @@ func (e *kvElection) becomeLeader(token string, rev uint64) {
 					)
 				}
 			}()
+			// gofail: var verifPromoteGoroutineEntry struct{}
+			// verifYield("promoteGoroutineEntry")
+
 			promoteCtx, cancel := context.WithCancel(termCtx)
 			defer cancel()
 			onPromote(promoteCtx, token)
@@ -977,6 +980,9 @@ func (e *kvElection) StopWithContext(ctx context.Context, opts StopOptions) erro
 				deleted <- errNotRecordOwner
 				return
 			}
+			// gofail: var verifStopBetweenReadAndDelete struct{}
+			// verifYield("stopBetweenReadAndDelete")
+
 			deleted <- e.kv.Delete(e.key)
 		}()
 		var err error
